@@ -3,6 +3,7 @@ package main
 import (
 	"fmt"
 	"os"
+	"runtime"
 )
 
 // runProp evaluates one property's rules on a world, converting engine panics into an unresolved obligation.
@@ -42,12 +43,17 @@ func (r *Report) openRules(known []knownFinding) map[string]bool {
 
 // secondWorld loads the normal form (helpers inlined, returns canonicalised) of the program of w, or nil.
 func secondWorld(w *World, opts LoadOpts) *World {
+	w2, _ := secondWorldOpts(w, opts)
+	return w2
+}
+
+func secondWorldOpts(w *World, opts LoadOpts) (*World, LoadOpts) {
 	if os.Getenv("BANDCHECK_NOPASS2") != "" { // debugging aid: first-pass verdicts only
-		return nil
+		return nil, opts
 	}
 	ov := w.BuildNormalForm()
 	if ov == nil {
-		return nil
+		return nil, opts
 	}
 	o2 := opts
 	o2.Overlay = map[string][]byte{}
@@ -71,9 +77,9 @@ func secondWorld(w *World, opts LoadOpts) *World {
 				os.WriteFile("/tmp/normalform_"+sanitize(k)+".go", v, 0o644)
 			}
 		}
-		return nil
+		return nil, opts
 	}
-	return w2
+	return w2, o2
 }
 
 // adoptFromNormalForm: rule groups that are open in r but fully discharged in r2 are replaced by r2's obligations.
@@ -101,7 +107,7 @@ func adoptFromNormalForm(r, r2 *Report, known []knownFinding) int {
 	if debugNormalForm {
 		for _, o := range r2.Obls {
 			if o.status != Discharged && open[o.Rule] {
-				fmt.Printf("pass2 still open: %s %s :: %s\n", o.Status, o.Key, clip(o.Detail, 200))
+				fmt.Printf("pass2 still open: %s %s :: %s\n", o.Status, o.Key, clip(o.Detail, 900))
 			}
 		}
 	}
@@ -137,3 +143,55 @@ func init() {
 }
 
 var debugNormalForm bool
+
+// nfChain: the successive normal forms of a program (the normal form of the normal form inlines what the first round
+// exposed: helper calls inside inlined bodies, conditions of rewritten switches, …), built on demand.
+type nfChain struct {
+	worlds  []*World // worlds[0] = the sources
+	opts    []LoadOpts
+	failed  bool
+	keepAll bool // several properties are decided on the same chain (tooling): keep every round in memory
+}
+
+const maxNormalFormRounds = 4
+
+func newChain(w *World, opts LoadOpts) *nfChain {
+	return &nfChain{worlds: []*World{w}, opts: []LoadOpts{opts}}
+}
+
+// get returns the k-th normal form (k >= 1) or nil.
+func (c *nfChain) get(k int) *World {
+	for len(c.worlds) <= k && !c.failed {
+		last := len(c.worlds) - 1
+		w2, o2 := secondWorldOpts(c.worlds[last], c.opts[last])
+		if w2 == nil {
+			c.failed = true
+			break
+		}
+		c.worlds = append(c.worlds, w2)
+		c.opts = append(c.opts, o2)
+		if !c.keepAll && last >= 1 {
+			c.worlds[last] = nil // a round that has been superseded is not needed again (each world is ~3 GB)
+			runtime.GC()
+		}
+	}
+	if k < len(c.worlds) {
+		return c.worlds[k]
+	}
+	return nil
+}
+
+// decide re-evaluates property id on successive normal forms while rule groups stay open, adopting what each round clears.
+func (c *nfChain) decide(id, tier string, r *Report, known []knownFinding) {
+	for k := 1; k <= maxNormalFormRounds; k++ {
+		if len(r.openRules(known)) == 0 {
+			return
+		}
+		wk := c.get(k)
+		if wk == nil {
+			return
+		}
+		rk, _ := runProp(id, wk, tier)
+		adoptFromNormalForm(r, rk, known)
+	}
+}
